@@ -23,6 +23,14 @@ def _closure_ret(F, t):
 # ------------------------------------------------------------------------------------------------
 def r_prune_at_pop(ctx, rule='R01.1'):
     for tag, adt in SOLVERS:
+        # the root sub-problem is pushed on every path through initialize: its bound is +infinity, nothing can justify dropping it before a
+        # diagram has been compiled (a "the primal already reaches the rough bound of the root" shortcut forgets the initial value)
+        ib = ctx.body(adt, 'initialize')
+        pps = [u_.term_point(bb) if u_ is ib else None for u_ in ctx.unit(ib) for (bb, t) in u_.calls_to('Fringe::push')]
+        pps = [p_ for p_ in pps if p_ is not None]
+        r0 = ib.reach([(0, 0)], avoid=pps)
+        ctx.check(bool(pps) and not any(p_ in r0 for p_ in ret_points(ib)), rule, tag + '/initialize-always-pushes-root', ib, ib.loc(0),
+                  'every path through initialize pushes the root sub-problem onto the fringe', 'initialize can return without pushing the root sub-problem: the search then completes at once with whatever incumbent was given')
         b = ctx.body(adt, 'process_one_node')
         cs = compile_calls(b)
         if not ctx.floor(rule, tag, b, len(cs), 2, 'DecisionDiagram::compile call sites in process_one_node'):
